@@ -44,6 +44,7 @@ func main() {
 	defer os.RemoveAll(tmp)
 	cfg := &Config{Repo: *repo, Verif: *verif, Tmp: tmp, Tier: *tier, Seed: seed, Jobs: *jobs, Verbose: *verbose, OnlyH: *only, NoReplay: *noReplay, DumpSMT: *dump}
 	verboseLog = *verbose
+	repoRoot = strings.TrimRight(*repo, "/")
 	switch cmd {
 	case "list":
 		hs, _, err := discoverHarnesses(cfg)
@@ -99,19 +100,44 @@ func check(cfg *Config, prop string, writeEvidence bool) int {
 	if err != nil {
 		fatal(err)
 	}
+	var genNotes []string
+	if prop == "C17" {
+		if _, err := prepareModfile(cfg); err != nil {
+			fatal(err)
+		}
+		n, skipped, err := genC17(cfg, overlay, cfg.Tier != "thorough")
+		if err != nil {
+			fmt.Fprintln(os.Stderr, "INCONCLUSIVE: cannot generate the C17 harnesses from /repo's type information:", err)
+			if writeEvidence {
+				writeBrokenEvidence(cfg, prop, err.Error(), time.Since(t0))
+			}
+			return 3
+		}
+		src := overlay[filepath.Join(cfg.Repo, "zz_verifc17", "gen.go")]
+		more, err := parseHarnessSource(filepath.Join(cfg.Repo, "zz_verifc17", "gen.go"), "zz_verifc17", src)
+		if err != nil {
+			fatal(err)
+		}
+		all = append(all, more...)
+		genNotes = append(genNotes, fmt.Sprintf("%d method-pair harnesses generated from the current method sets", n))
+		for _, sk := range skipped {
+			genNotes = append(genNotes, "skipped: "+sk)
+		}
+		logf("  C17: %d method-pair harnesses generated; %d methods skipped\n", n, len(skipped))
+	}
 	var hs []*Harness
 	dirSet := map[string]bool{"zz_verifrt": true}
 	for _, h := range all {
 		if h.Property != prop {
 			continue
 		}
-		if cfg.OnlyH != "" && h.Name != cfg.OnlyH {
+		if cfg.OnlyH != "" && h.Name != cfg.OnlyH && !(strings.HasSuffix(cfg.OnlyH, "*") && strings.HasPrefix(h.Name, strings.TrimSuffix(cfg.OnlyH, "*"))) {
 			continue
 		}
 		if h.Tier == "thorough" && cfg.Tier != "thorough" {
 			continue
 		}
-		if h.Tier == "off" && cfg.OnlyH != h.Name {
+		if h.Tier == "off" && cfg.OnlyH != h.Name && !strings.HasSuffix(cfg.OnlyH, "*") {
 			continue
 		}
 		if v, ok := h.Opts["timeout_"+cfg.Tier]; ok {
@@ -155,7 +181,7 @@ func check(cfg *Config, prop string, writeEvidence bool) int {
 	var ldMu sync.Mutex
 	_ = ldMu
 	pathSlots = make(chan struct{}, cfg.Jobs)
-	sem = make(chan struct{}, len(hs)+1)
+	sem = make(chan struct{}, cfg.Jobs)
 	for i, h := range hs {
 		h.Workers = cfg.Jobs
 		h.RunTier = cfg.Tier
@@ -179,6 +205,7 @@ func check(cfg *Config, prop string, writeEvidence bool) int {
 	violations := 0
 	var violLines, knownLines, inconc []string
 	knownPrinted := map[*Finding]bool{}
+	seenNew := map[string]bool{}
 	for _, r := range results {
 		for _, e := range r.Errors {
 			inconc = append(inconc, "engine error: "+e)
@@ -192,7 +219,6 @@ func check(cfg *Config, prop string, writeEvidence bool) int {
 			inconc = append(inconc, fmt.Sprintf("%s: unwinding assertion failed at %s (bound %d)", r.H.Name, pos, r.H.Unwind))
 		}
 		// vacuity is judged per property below (harnesses may share a parametrised body)
-		seenNew := map[string]bool{}
 		for _, c := range r.Candidates {
 			if c.Known != nil {
 				if !knownPrinted[c.Known] {
@@ -202,6 +228,9 @@ func check(cfg *Config, prop string, writeEvidence bool) int {
 				continue
 			}
 			key := c.Harness + "|" + c.OblID + "|" + fmt.Sprint(c.Classes)
+			if c.Kind == "race" {
+				key = "race|" + fmt.Sprint(c.Classes) // one report per pair of racing source files
+			}
 			if seenNew[key] {
 				continue
 			}
@@ -256,7 +285,7 @@ func check(cfg *Config, prop string, writeEvidence bool) int {
 	}
 	wall := time.Since(t0)
 	if writeEvidence {
-		writeEvidenceFile(cfg, prop, results, violations, inconc, knownLines, wall, loadTime, rp)
+		writeEvidenceFile(cfg, prop, results, violations, inconc, knownLines, wall, loadTime, rp, genNotes)
 	}
 	for _, l := range knownLines {
 		fmt.Println(l)
@@ -343,7 +372,7 @@ func writeBrokenEvidence(cfg *Config, prop, msg string, wall time.Duration) {
 	os.WriteFile(filepath.Join(cfg.Verif, "evidence", prop+".json"), b, 0644)
 }
 
-func writeEvidenceFile(cfg *Config, prop string, results []*HarnessResult, violations int, inconc, knownLines []string, wall, loadTime time.Duration, rp *replayer) {
+func writeEvidenceFile(cfg *Config, prop string, results []*HarnessResult, violations int, inconc, knownLines []string, wall, loadTime time.Duration, rp *replayer, genNotes []string) {
 	funcs := map[string]bool{}
 	stubs := map[string]bool{}
 	var samples []interface{}
@@ -396,7 +425,12 @@ func writeEvidenceFile(cfg *Config, prop string, results []*HarnessResult, viola
 			hd["combinations_with_a_consistent_schedule"] = r.FeasibleCombos
 			hd["events_encoded"] = r.Events
 		}
-		perHarness = append(perHarness, hd)
+		if len(results) <= 40 || len(r.Candidates) > 0 || len(r.Inconclusive) > 0 {
+			perHarness = append(perHarness, hd)
+		} else {
+			perHarness = append(perHarness, map[string]interface{}{"harness": r.H.Pkg + "." + r.H.Name, "pair": r.H.Opts["pair"], "thread_path_combinations": r.ConcCombos,
+				"combinations_with_a_consistent_schedule": r.FeasibleCombos, "conflicting_access_pairs_checked": r.RacePairs, "solver_queries": r.Queries, "events_encoded": r.Events})
+		}
 		for _, s := range r.Samples {
 			samples = append(samples, s)
 		}
@@ -423,6 +457,10 @@ func writeEvidenceFile(cfg *Config, prop string, results []*HarnessResult, viola
 			"rule": "one symbolic execution of the real SSA per control-flow path of each harness; an obligation is (assertion or implicit run-time check) x path, posed to the solver as pc AND NOT cond over all symbolic inputs; " +
 				"distinct_nontrivial counts obligations distinct by (harness, assertion id, source position) that were reached under a satisfiable path condition and either still contained symbolic variables after simplification or were evaluated on a path selected by solver-checked symbolic decisions (obligations that are constant on the single decision-free path are not counted); evaluations = solver queries issued (feasibility + obligations)",
 			"samples":             samples,
+			"states":              maxInt(paths, 1),
+			"transitions":         maxInt(queries, 1),
+			"traces_validated_against_impl": len(rp.log),
+			"states_transitions_meaning": "states = symbolic control-flow paths (for concurrent harnesses: final-phase paths; thread-path combinations are listed per harness) each denoting the set of all concrete states/inputs satisfying its path condition; transitions = solver queries deciding symbolic branch feasibility and obligations; traces_validated_against_impl = solver models re-executed concretely / natively",
 			"obligations":         posed,
 			"discharged":          discharged,
 			"symbolic_obligations": nontrivial,
@@ -434,6 +472,7 @@ func writeEvidenceFile(cfg *Config, prop string, results []*HarnessResult, viola
 			"harnesses":           perHarness,
 			"inconclusive":        inconc,
 			"known_findings":      knownLines,
+			"generated_harnesses": genNotes,
 			"replays":             rp.log,
 			"exhaustive":          false,
 			"explanation":         "bounded symbolic model checking by SMT over the SSA of the real code, regenerated from /repo on this run; verdicts are the solver's over all values of the symbolic inputs within the stated bounds",
@@ -442,6 +481,13 @@ func writeEvidenceFile(cfg *Config, prop string, results []*HarnessResult, viola
 	b, _ := json.MarshalIndent(ev, "", " ")
 	os.MkdirAll(filepath.Join(cfg.Verif, "evidence"), 0755)
 	os.WriteFile(filepath.Join(cfg.Verif, "evidence", prop+".json"), b, 0644)
+}
+
+func maxInt(a, b int) int {
+	if a > b {
+		return a
+	}
+	return b
 }
 
 func round2(f float64) float64 { return float64(int(f*100+0.5)) / 100 }
